@@ -227,7 +227,7 @@ func walkEdge(prop string, v *Ver, ord []string, from Obj, e *objEdge, col *coll
 			return nil
 		}
 		got := project(o, ord)
-		if (prop == "C02" || prop == "C09") && !from.Same(o) && !eqs(got, e.T) {
+		if (prop == "C02" || prop == "C09" || prop == "C11") && !from.Same(o) && !eqs(got, e.T) {
 			// a real object the model does not predict is still an object obtained through the public API:
 			// the per-object obligations hold for it too
 			checkState(prop, v, ord, skey(vn, got)+" (not the model's to-state)", o, nil, col, e)
@@ -311,7 +311,7 @@ func walkEdge(prop string, v *Ver, ord []string, from Obj, e *objEdge, col *coll
 		}
 		col.count("Set chains replayed", 1)
 		got := project(o, ord)
-		if (prop == "C02" || prop == "C09") && !eqs(got, e.T) {
+		if (prop == "C02" || prop == "C09" || prop == "C11") && !eqs(got, e.T) {
 			checkState(prop, v, ord, skey(vn, got)+" (not the model's to-state)", o, nil, col, e)
 		}
 		if !eqs(got, e.T) {
@@ -350,6 +350,24 @@ func checkState(prop string, v *Ver, ord []string, key string, o Obj, ms *objSta
 		col.sample(map[string]interface{}{"state": key, "reached_by": edgeRec(via)})
 	}
 	switch prop {
+	case "C11":
+		// every scoring method of every object reached through the API: one decimal, in range, no panic
+		for _, sc := range v.Scores {
+			var g float64
+			p, msg := safely(func() { g = o.Score(sc) })
+			lo := 0
+			if vn == "2.0" && sc == "environmental" {
+				lo = -2
+			}
+			col.count("scores of reached objects checked", 1)
+			if k, ok := isTenth(g, lo, 100); p || !ok {
+				viol("score of a reachable object is not a one-decimal number within the scale", "k/10 within the scale", map[string]interface{}{"method": sc, "score": fmtF(g), "k": k, "panic": msg})
+			} else if v.Rating != nil && k >= 0 {
+				if _, err := v.Rating(g); err != nil {
+					viol("Rating rejects a score the package produced", "nil error", map[string]interface{}{"method": sc, "score": fmtF(g)})
+				}
+			}
+		}
 	case "C02":
 		var vec string
 		if p, msg := safely(func() { vec = o.Vector() }); p {
